@@ -35,8 +35,13 @@ CONFIGS = [
     ("keys", ("k",), False, ()), ("keys", ("k",), True, ()), ("keys", ("k", "v"), True, ()), ("keys", ("v",), False, ()),
     # long values cross the externalisation threshold (min_size_to_cache=64 below); disable_cache_args keeps some inline
     ("keys", ("k",), True, ("k",)), ("arguments", (), False, ("v",)), ("keys", ("k", "v"), False, ("*",)),
+    # (…, value pool, running concurrency): values that Python calls equal but that are different arguments (1, True, 1.0 /
+    # 0, False) under the raise option; and registration control combined with a running control of another scope
+    ("keys", ("k",), True, (), "typed", "disabled"), ("task", (), True, (), "typed", "disabled"), ("arguments", (), False, (), "typed", "disabled"),
+    ("arguments", (), False, (), "str", "keys"), ("keys", ("k",), True, (), "str", "arguments"), ("task", (), False, (), "str", "keys"),
 ]
 LONG = "L" * 90
+TYPED = [1, True, 1.0, 0, False, "1"]
 
 
 def kv(d: dict[str, str]) -> str:
@@ -70,10 +75,16 @@ def run(ctx: Ctx) -> None:
     nd = 0
     nsteps = 120 if ctx.quick else 700
     try:
-        for ci, (mode, keys, rse, dca) in enumerate(CONFIGS):
+        for ci, conf in enumerate(CONFIGS):
+            mode, keys, rse, dca = conf[:4]
+            pool, runmode = (conf[4], conf[5]) if len(conf) > 4 else ("long" if ci >= 7 else "str", "disabled")
             for kind in ("mem", "sqlite"):
                 app = make_app(kind, ctx.tmp, app_id=f"c07{kind}{ci}", min_size_to_cache=64)
                 opts: dict[str, Any] = {"registration_concurrency": C(mode)}
+                if runmode != "disabled":
+                    opts["running_concurrency"] = C(runmode)
+                    if runmode == "keys" and not keys:
+                        opts["key_arguments"] = ("k",)
                 if dca:
                     opts["disable_cache_args"] = dca
                 if keys:
@@ -83,7 +94,7 @@ def run(ctx: Ctx) -> None:
                 o = app.orchestrator
                 tname = task.task_id.key
                 drv.ask("o.reset")
-                drv.ask(f"cc.conf {tok(tname)} {mode} disabled {'1' if rse else '0'} 1 " + " ".join(tok(k) for k in keys))
+                drv.ask(f"cc.conf {tok(tname)} {mode} {runmode} {'1' if rse else '0'} 1 " + " ".join(tok(k) for k in (keys or opts.get("key_arguments", ()))))
                 invs: dict[str, dict] = {}   # id -> {args, status}
                 unused = 0
 
@@ -91,9 +102,10 @@ def run(ctx: Ctx) -> None:
                     # the registration key in terms of the CALL's argument values (raw, not their serialized form)
                     if mode == "task":
                         return ()
+                    # (type-exact: 1, True and 1.0 are different arguments although Python calls them equal)
                     if mode == "arguments":
-                        return tuple(sorted(a.items()))
-                    return tuple((k, a[k]) for k in keys)
+                        return tuple(sorted((k, repr(v)) for k, v in a.items()))
+                    return tuple((k, repr(a[k])) for k in keys)
 
                 def census_check(where: str):
                     if mode == "disabled":
@@ -114,7 +126,10 @@ def run(ctx: Ctx) -> None:
                     clock.advance(1000)
                     r = ctx.rng.random()
                     if r < 0.6 or not invs:
-                        k_, v_, w_ = ctx.rng.choice(["a", "b", "a" + LONG, "b" + LONG] if ci >= 7 else ["a", "b", "d"]), ctx.rng.choice(["d", "x", "x" + LONG] if ci >= 7 else ["d", "a", "b"]), ctx.rng.choice(["e", "a"])
+                        if pool == "typed":
+                            k_, v_, w_ = ctx.rng.choice(["a", 1, True]), ctx.rng.choice(TYPED), ctx.rng.choice(["e", 0, False])
+                        else:
+                            k_, v_, w_ = ctx.rng.choice(["a", "b", "a" + LONG, "b" + LONG] if pool == "long" else ["a", "b", "d"]), ctx.rng.choice(["d", "x", "x" + LONG] if pool == "long" else ["d", "a", "b"]), ctx.rng.choice(["e", "a"])
                         args, kwargs = spell(ctx.rng, k_, v_, w_)
                         bound = {"k": k_, "v": v_, "w": w_}
                         call = Call(task, task.args(*args, **kwargs))
